@@ -447,7 +447,7 @@ mod replay {
     use std::collections::HashMap;
 
     use serde_json::{json, Value};
-    use vcore::{bft::*, *};
+    use vcore::bft::*;
     use zksync_consensus_roles::validator::{
         self,
         v2::{ChonkyMsg, CommitQC, LeaderProposal, ProposalJustification, ReplicaCommit, ReplicaNewView, ReplicaTimeout, TimeoutQC},
